@@ -219,7 +219,7 @@ theorem honest_pair_connects_partial (aControlling : Bool) (component addrA addr
   have h2 : (addrB == addrA) = false := by simp [Ne.symm hne]
   cases aControlling <;>
     simp [honestNet, Net.deliver, Net.deliverRound, Net.opA, Net.opB, Net.emitA, Net.emitB, route, wire, run, step, init, addRemote,
-      St.addPair, sortDesc, insertDesc, connect, checkCandidates, performCheck, updatePair, react, prescan, decodeWalk, miCheck, handleRequest,
+      St.addPair, sortDesc, insertDesc, connect, checkCandidates, performCheck, updatePair, react, prescan, decodeWalk, miCheck, Stun.decoded, parsedUc, parsedPrio, handleRequest,
       handleResponse, completion, findPair, St.connected, h1, h2]
 
 set_option linter.unusedSimpArgs false in
@@ -234,7 +234,7 @@ theorem honest_pair_carries_datagrams (aControlling : Bool) (component addrA add
   have h2 : (addrB == addrA) = false := by simp [Ne.symm hne]
   cases aControlling <;>
     simp [honestNet, Net.deliver, Net.deliverRound, Net.opA, Net.opB, Net.emitA, Net.emitB, route, wire, run, step, init, addRemote,
-      St.addPair, sortDesc, insertDesc, connect, checkCandidates, performCheck, updatePair, react, prescan, decodeWalk, miCheck, handleRequest,
+      St.addPair, sortDesc, insertDesc, connect, checkCandidates, performCheck, updatePair, react, prescan, decodeWalk, miCheck, Stun.decoded, parsedUc, parsedPrio, handleRequest,
       handleResponse, completion, findPair, St.connected, sendApp, h1, h2]
 
 /-! ## Non-vacuity: concrete, non-trivial instances of the hypotheses -/
